@@ -4,7 +4,43 @@ pub mod env;
 pub mod model;
 pub mod refcodec;
 
+#[cfg(all(kani, feature = "c00"))]
+mod c00;
 #[cfg(all(kani, feature = "c01"))]
 mod c01;
+#[cfg(all(kani, feature = "c02"))]
+mod c02;
+#[cfg(all(kani, feature = "c03"))]
+mod c03;
+#[cfg(all(kani, feature = "c04"))]
+mod c04;
+#[cfg(all(kani, feature = "c05"))]
+mod c05;
+#[cfg(all(kani, feature = "c06"))]
+mod c06;
+#[cfg(all(kani, feature = "c07"))]
+mod c07;
+#[cfg(all(kani, feature = "c08"))]
+mod c08;
+#[cfg(all(kani, feature = "c09"))]
+mod c09;
+#[cfg(all(kani, feature = "c10"))]
+mod c10;
+#[cfg(all(kani, feature = "c11"))]
+mod c11;
+#[cfg(all(kani, feature = "c12"))]
+mod c12;
+#[cfg(all(kani, feature = "c13"))]
+mod c13;
+#[cfg(all(kani, feature = "c14"))]
+mod c14;
+#[cfg(all(kani, feature = "c15"))]
+mod c15;
+#[cfg(all(kani, feature = "c16"))]
+mod c16;
+#[cfg(all(kani, feature = "c17"))]
+mod c17;
+#[cfg(all(kani, feature = "c18"))]
+mod c18;
 #[cfg(all(kani, feature = "c19"))]
 mod c19;
